@@ -85,7 +85,7 @@ pub fn sigma04() -> Vec<char> {
 }
 
 pub fn run(env: &Env, run: &Run) -> (Stats, Coverage) {
-    let sigma = sigma04();
+    let sigma = crate::sig::rotated(env, sigma04(), run.seed);
     let n = run.tier.pick(5, 6);
     let mut st = strtree(&sigma, n, |_chars, s, st| {
         for p in [Prof::Ucm, Prof::Ucp] {
